@@ -66,6 +66,7 @@ type SpecDB struct {
 	fieldFns     map[string]*ssa.Function // field array name -> spec function standing for calls through that func-typed field
 	getters      map[string]bool
 	detFns       map[string]bool
+	guardSubs    map[string]map[int]bool
 	stubs        map[string]*ssa.Function
 	assumeAssert map[string]bool
 	dynCalls     map[string]*ssa.Function // "fn#k" -> spec function for the k-th dynamic call in fn
@@ -390,12 +391,41 @@ func (db *SpecDB) readFile(prog *ssa.Program, p *packages.Package, spkg *ssa.Pac
 					db.guards[key] = map[int]int{}
 				}
 				for _, fnm := range dir[3:] {
+					// "Outer.Inner": only field Inner of the embedded / nested struct
+					// field Outer is guarded (the rest of Outer is immutable data)
+					sub := ""
+					if i := strings.Index(fnm, "."); i >= 0 {
+						fnm, sub = fnm[:i], fnm[i+1:]
+					}
 					fi := idx(fnm)
 					if fi < 0 {
 						db.errf("guarded: %s.%s not found", dir[1], fnm)
 						continue
 					}
 					db.guards[key][fi] = mi
+					if sub != "" {
+						ist, ok := stt.Field(fi).Type().Underlying().(*types.Struct)
+						si := -1
+						if ok {
+							for j := 0; j < ist.NumFields(); j++ {
+								if ist.Field(j).Name() == sub {
+									si = j
+								}
+							}
+						}
+						if si < 0 {
+							db.errf("guarded: %s.%s.%s not found", dir[1], fnm, sub)
+							continue
+						}
+						if db.guardSubs == nil {
+							db.guardSubs = map[string]map[int]bool{}
+						}
+						k2 := fmt.Sprintf("%s#%d", key, fi)
+						if db.guardSubs[k2] == nil {
+							db.guardSubs[k2] = map[int]bool{}
+						}
+						db.guardSubs[k2][si] = true
+					}
 				}
 			case "sweep":
 				tn := expandName(dir[1])
